@@ -137,6 +137,16 @@ def py_wf(v):
     return all(py_wf(k) and py_wf(x) for k, x in v.items())
 
 
+def has_nan(v):
+    if isinstance(v, float):
+        return v != v
+    if isinstance(v, list):
+        return any(has_nan(x) for x in v)
+    if isinstance(v, dict):
+        return any(has_nan(x) for x in v.values())
+    return False
+
+
 def show(v, n=160):
     try:
         return json.dumps(v)[:n]
@@ -170,10 +180,11 @@ STR_CORPUS = (["", "a", "caf\u00e9", "\u65e5\u672c\u8a9e", "\U0001f600", '"', "'
 # outside the domain of the theorem: a high surrogate directly followed by a low one
 STR_PAIRS = ["\ud83d\ude00", "x\ud800\udc00y", "\udbff\udfff", "\ud83d\ud83d\ude00", "\ud83d\ude00\ude00"]
 
-INT_CORPUS = ([0, 1, -1, 9, 10, -10, 255, 2 ** 31 - 1, 2 ** 31, -2 ** 31, 2 ** 53, 2 ** 53 + 1, 2 ** 63 - 1, 2 ** 63, -2 ** 63,
-               -2 ** 63 - 1, 2 ** 64, 10 ** 18, 10 ** 19, 10 ** 30, -10 ** 30, 10 ** 100 + 7, 2 ** 4000,
-               10 ** (MAXDIG - 1), 10 ** MAXDIG - 1, -(10 ** MAXDIG - 1)])
-INT_TOO_BIG = [10 ** MAXDIG, -10 ** MAXDIG, 10 ** (MAXDIG + 50) + 3]
+INT_CORPUS = [0, 1, -1, 9, 10, -10, 255, 2 ** 31 - 1, 2 ** 31, -2 ** 31, 2 ** 53, 2 ** 53 + 1, 2 ** 63 - 1, 2 ** 63, -2 ** 63,
+              -2 ** 63 - 1, 2 ** 64, 10 ** 18, 10 ** 19, 10 ** 30, -10 ** 30, 10 ** 100 + 7, 2 ** 400]
+# the digit limit of int.__repr__ / int(str): 4300 digits pass, 4301 raise ValueError (costly in the extracted model: used once each)
+INT_HUGE = [10 ** (MAXDIG - 1), -(10 ** MAXDIG - 1)]
+INT_TOO_BIG = [10 ** MAXDIG, -10 ** MAXDIG]
 
 FLOAT_CORPUS = [0.0, -0.0, 1.0, -1.0, 0.1, 0.5, 1 / 3, 2.5, 1e-7, 1e-5, 1e-4, 0.0001, 0.00001, 1e15, 1e16, 1e17, 1e21, 1e22, 1e23,
                 123456789.123456789, 5e-324, 1e-320, 2.2250738585072014e-308, 1.7976931348623157e308, -1.5e-10, 0.1 + 0.2,
@@ -195,7 +206,7 @@ def rand_float(rng):
 def rand_int(rng, big_ok=True):
     r = rng.random()
     if r < 0.4:
-        return rng.choice(INT_CORPUS if big_ok else INT_CORPUS[:22])
+        return rng.choice(INT_CORPUS)
     if r < 0.8:
         return rng.randrange(-1000, 1000)
     n = rng.getrandbits(rng.choice([31, 32, 53, 63, 64, 65, 128, 600]))
@@ -252,7 +263,7 @@ def rand_scalar(rng, pairs=False, big=False):
     if r < 0.1:
         return rng.choice([None, True, False])
     if r < 0.3:
-        return rand_int(rng) if not big or rng.random() > 0.1 else rng.choice(INT_TOO_BIG)
+        return rand_int(rng) if not big or rng.random() > 0.02 else rng.choice(INT_TOO_BIG)
     if r < 0.5:
         return rand_float(rng)
     return rand_str(rng, pairs)
@@ -283,7 +294,7 @@ def nest(n, leaf):
 
 def boundary_values():
     vals = [None, True, False, [], {}, [[]], [{}], {"": []}, {"": {}}, {"a": {"b": []}, "c": [{}, [], "", 0]}, "", [""], {"": ""}]
-    vals += list(INT_CORPUS) + list(FLOAT_CORPUS) + list(STR_CORPUS)
+    vals += list(INT_CORPUS) + list(INT_HUGE) + list(FLOAT_CORPUS) + list(STR_CORPUS)
     vals += [list(INT_CORPUS), list(FLOAT_CORPUS), list(STR_CORPUS), {s: i for i, s in enumerate(STR_CORPUS)}]
     vals += [{"b": 1, "a": 2}, {"a": 2, "b": 1}, {"z": 1, "y": 2, "x": 3, "": 4}, {"10": 1, "9": 2, "1": 3}]
     vals += [{"mixed": [1, 1.0, True, "1", None, [1], {"1": 1}, -0.0, 0, 0.0, False]}]
@@ -294,7 +305,7 @@ def boundary_values():
 
 
 def outside_values():
-    return list(STR_PAIRS) + [{"k": s} for s in STR_PAIRS] + [{s: 1} for s in STR_PAIRS] + list(INT_TOO_BIG) + [[1, INT_TOO_BIG[0]]]
+    return list(STR_PAIRS) + [{"k": s} for s in STR_PAIRS] + [{s: 1} for s in STR_PAIRS] + [INT_TOO_BIG[0], [1, INT_TOO_BIG[1]]]
 
 
 # ---- texts for loads
@@ -599,7 +610,7 @@ def _json_check(ck, prove):
     inside = boundary_values()
     inside += [rand_value(rng, rng.randrange(0, 7)) for _ in range(700 * N)]
     inside += [rand_scalar(rng) for _ in range(300 * N)]
-    outside = outside_values() + [rand_value(rng, rng.randrange(1, 5), pairs=True, big=True) for _ in range(150 * N)]
+    outside = outside_values() + [rand_value(rng, rng.randrange(1, 5), pairs=True, big=not quick) for _ in range(150 * N)]
     values = inside + outside
     wires = [to_wire(v) for v in values]
 
@@ -659,7 +670,7 @@ def _json_check(ck, prove):
     texts = []
     base = [v for v in inside if py_wf(v)] + outside_values()[:12]
     for v in base[:len(boundary_values())]:
-        for st in STYLES:
+        for st in (STYLES[:1] if isinstance(v, int) and abs(v) >= 10 ** 1000 else STYLES):
             texts.append(render(v, rng, st))
     for v in base[len(boundary_values()):]:
         texts.append(render(v, rng, rng.choice(STYLES)))
@@ -734,12 +745,14 @@ def _json_check(ck, prove):
             ck.failing_input(f"JSON:{be}:{where}:missing", f"[{be}] event with data {show(d)} not returned by {where}", {"backend": be, "data_json": show(d, 4000)})
             return
         text, eq, can = obs
+        eq = eq or has_nan(d)                      # NaN != NaN in Python: such data is compared by canonical form only
         if inside_dom and (not eq or json.dumps(json.loads(text), sort_keys=True) != json.dumps(d, sort_keys=True)):
             path = write_replay(ck, {"backend": be, "where": where, "data_json": json.dumps(d)})
             ck.failing_input(f"JSON:{be}:{where}:data", f"[{be}] data {show(d)} read back by {where} as {text[:160]}",
                              {"backend": be, "where": where, "replay_file": path, "data_json": show(d, 2000), "observed_json": text[:2000],
                               "rerun": f"VERIF_REPO={common.REPO} PYTHONPATH={common.REPO}:{common.VERIF} /venv/bin/python -m harness.jsonmodel replay {path}"})
-        expect = canon_py(d) if be == "memory" else dback[k]       # memory deep-copies; the SQL back ends go through the text
+        # memory deep-copies and insert() hands back the caller's event; reads of the SQL back ends go through the text
+        expect = canon_py(d) if be == "memory" or where == "insert" else dback[k]
         if can != expect:
             ck.disagreement(f"json:{be}:{where}", f"[{be}] data {show(d)} read back as {text[:160]}; the model predicts {str(expect)[:160]} (structural: key order, int/float)",
                             {"backend": be, "where": where, "data_json": show(d, 2000), "observed_json": text[:2000]})
@@ -775,7 +788,7 @@ def _json_check(ck, prove):
         if not s.endswith(', "data": ' + dtext[k] + "}"):
             ck.disagreement("json:event-to_json_str", f"Event.to_json_str() = {s[:200]} does not end with the model's text of the data {dtext[k][:160]}",
                             {"data_json": show(d, 2000), "to_json_str": s[:2000]})
-        if py_wf(d) and (not eq or can != canon_py(d)):
+        if py_wf(d) and (not (eq or has_nan(d)) or can != canon_py(d)):
             ck.failing_input("JSON:event-json-form:data", f"Event(**json.loads(e.to_json_str())).data = {text[:160]} for data {show(d)}",
                              {"data_json": show(d, 2000), "observed_json": text[:2000]})
         elif can != dback[k]:
